@@ -21,7 +21,7 @@ theorem lookups_agree (ops : List Op) (w : WfOps ops) (f : Frame) (hid : f.id < 
 theorem head_exact (ops : List Op) (w : WfOps ops) (t : List Nat) (c : Nat) (ht : NulFree t)
     (hc : c < idBound) :
     (after ops).head t c =
-      ((frames (after ops)).filter (fun f => decide (f.ctx = c) && decide (f.topic = t))).getLast? :=
+      (topicFrames (after ops) c t).getLast? :=
   head_spec (after_inv w).k ht hc
 
 /-- the stream of the context, filtered to the topic, is what `head` looks at: same thing
@@ -31,7 +31,7 @@ theorem head_is_last_of_context_stream (ops : List Op) (w : WfOps ops) (t : List
     (after ops).head t c =
       (((after ops).iterFrames (some c) none).filter (fun f => decide (f.topic = t))).getLast? := by
   have h := (after_inv w).k
-  rw [head_exact ops w t c ht (by omega),
+  rw [head_exact ops w t c ht (by omega), topicFrames,
     iterFrames_spec h (ctx := some c) (last := none)
       ⟨(by intro c' e; injection e with e; subst e; exact hc), (by intro l e; cases e)⟩,
     List.filter_filter]
